@@ -256,7 +256,7 @@ def _empty(p, default):
 
 
 # ------------------------------------------------------------------------------------ interpreter
-def run_kernel(case, tensors, flow, counts=None, abort_at=None, expect=None, hook=None):
+def run_kernel(case, tensors, flow, counts=None, abort_at=None, expect=None, hook=None, break_at=None):
     """execute the loop nest; returns (z tensor, z rank ids).
 
     expect: optional dict filled with per-loop-instance expectations for the trace oracles:
@@ -343,6 +343,9 @@ def run_kernel(case, tensors, flow, counts=None, abort_at=None, expect=None, hoo
                     exp["kept"].append(prev_c in zc.coords)
                 prev_c = c
             cnt.steps += 1
+            if break_at is not None and cnt.steps in break_at:
+                # the body leaves this loop early (`break`): the loop's generator is abandoned mid-way
+                break
             if abort_at is not None and cnt.steps == abort_at:
                 raise BodyAbort(f"body raised at step {cnt.steps}")
             cnt.body(v)
